@@ -332,8 +332,8 @@ fn execute_single_action(
             let source_path = source_root.join(&source.relative_path);
             let dest_path = dest_root.join(&dest.relative_path);
 
-            let source_conflict = conflict_filename(&source_path, timestamp, "source");
-            let dest_conflict = conflict_filename(&dest_path, timestamp, "dest");
+            let source_conflict = unused_conflict_path(&source_path, timestamp, "source");
+            let dest_conflict = unused_conflict_path(&dest_path, timestamp, "dest");
 
             std::fs::rename(&source_path, &source_conflict)?;
             std::fs::rename(&dest_path, &dest_conflict)?;
@@ -341,6 +341,21 @@ fn execute_single_action(
             Ok(0)
         }
     }
+}
+
+/// A conflict name that is not taken: the plain one, or -- when a conflict copy made within the
+/// same second (or a file of the user's) already has that name -- one with a counter after the
+/// time stamp. Renaming onto an existing conflict copy would silently destroy that version.
+fn unused_conflict_path(path: &Path, timestamp: &str, side: &str) -> PathBuf {
+    let path = path.to_path_buf();
+    let plain = conflict_filename(&path, timestamp, side);
+    if std::fs::symlink_metadata(&plain).is_err() {
+        return plain;
+    }
+    (1u32..)
+        .map(|n| conflict_filename(&path, &format!("{}-{}", timestamp, n), side))
+        .find(|candidate| std::fs::symlink_metadata(candidate).is_err())
+        .unwrap_or(plain)
 }
 
 /// Copy a file (simple implementation, will use transport layer in full version)
